@@ -358,7 +358,12 @@ func (r *Runner) Do(op Op) gate.Event {
 			return base
 		}, base))
 	case "enum":
-		after := r.U.CursorString(op.After, op.Form)
+		form := op.Form
+		if form == 0 {
+			// generated histories name a rank only: spell the cursors between two blobs in every equivalent way
+			form = (op.After + op.Limit) % 6
+		}
+		after := r.U.CursorString(op.After, form)
 		arank := r.U.CursorRank(after)
 		base := gate.Event{"ev": "op", "op": "enum", "after": arank, "limit": op.Limit, "cursor": after}
 		return fill(r.withWatchdog(func(ctx context.Context) gate.Event {
